@@ -16,6 +16,7 @@ fn main() {
     match mode.as_str() {
         "parse" => m_parse::run(),
         "rt" => m_rt::run(),
+        "variants" => m_rt::variants(),
         _ => {
             eprintln!("unknown mode {mode:?}");
             std::process::exit(2);
